@@ -215,7 +215,7 @@ class GenEOS_Solver(ExactSolver):
                num_int_pts = self.num_int_pts,
                num_x_pts = self.num_x_pts,
                int_tol = self.int_tol)
-        prob.driver()
+        prob.driver(x)
 
         self.x = prob.x
         self.p = prob.p
